@@ -127,9 +127,9 @@ def lex(text, env=None, start_line=1):
                     e = text.find("}", q + 2)
                     if e >= 0:
                         body = text[q + 2:e]
-                        line += body.count("\n") * 0     # newlines inside ${...} are not counted by the code (grey)
+                        line += body.count("\n")         # a newline is a newline, also inside ${...}
                         v, g = env_subst(body, env)
-                        grey = grey or g or ("\n" in body)
+                        grey = grey or g
                         buf.append(v)
                         q = e + 1
                         continue
@@ -240,7 +240,8 @@ def lex(text, env=None, start_line=1):
             if e >= 0:
                 body = text[p + 2:e]
                 v, g = env_subst(body, env)
-                toks.append(Tok("STR", v, line, p, e + 1, grey=g or ("\n" in body), form="env"))
+                line += body.count("\n")
+                toks.append(Tok("STR", v, line, p, e + 1, grey=g, form="env"))
                 p = e + 1
                 continue
         # unquoted word: maximal run of bytes outside the excluded set
